@@ -76,6 +76,18 @@ def run(ctx):
             if c:
                 cons.add(c)
         ctx.require(cons == want, "R-C16-1", "guard|" + t.callee.short.split("::")[-1], "%s runs only when %s" % (t.callee.short.split("::")[-1], sorted(want)), "%s runs under the constraints %s on %s (expected p > 0 and p < 1): an out-of-range probability is accepted or a valid one rejected" % (t.callee.short.split("::")[-1], sorted(cons), pname), loc_str(t.span))
+    # ... and so does every way of returning a graph: an Ok(..) built here, or the Result of a callee handed on
+    from guard import ok_producers
+
+    prods = ok_producers(gnp) or []
+    for k_, (pbb, what_, ps_) in enumerate(prods):
+        cons = set()
+        for (te, v, a) in controlling_atoms(fl, pbb):
+            c = interval_constraint(panic.norm(te), v, pname)
+            if c:
+                cons.add(c)
+        ctx.require(cons == want, "R-C16-1", "ok-exit|%d" % k_, "a graph is returned (%s) only when %s" % (what_, sorted(want)), "fast_gnp_random_graph returns a graph (%s) under the constraints %s on %s (expected p > 0 and p < 1): an out-of-range probability is accepted for some num_nodes" % (what_, sorted(cons), pname), loc_str(getattr(ps_, "span", None) or gnp.span))
+    ctx.floor("R-C16-1", "ok_exits", len(prods), 1)
     inv = [(bb, s) for (bb, s, v) in errorkind_sites(gnp) if v == "InvalidArgument"]
     ctx.require(len(inv) == 1, "R-C16-1", "invalid-argument", "an out-of-range probability yields ErrorKind::InvalidArgument", "InvalidArgument is built %d times" % len(inv), loc_str(gnp.span))
 
